@@ -10,6 +10,7 @@ import DtsVerif.Drv.Attrs
 import DtsVerif.Drv.TimeCoords
 import DtsVerif.Drv.Chunk
 import DtsVerif.Drv.Readers
+import DtsVerif.Drv.Design
 /-! Line-protocol driver: one JSON request per line on stdin, one JSON reply per line on stdout. -/
 open Lean DtsVerif.Drv
 
@@ -23,6 +24,7 @@ def dispatch (op : String) (j : Json) : R Json :=
   | "suggest" => opSuggest j
   | "calib" => opCalib j
   | "layout" => opLayout j
+  | "design" => opDesign j
   | "calib.temps" => opTemps j
   | "propagate" => opPropagate j
   | "guard" => opGuard j
